@@ -1,11 +1,11 @@
 (* Property C20: string formatting is total and faithful to the format directive.
-   Statements only; the proofs are in Proofs/Format{Proofs,Width,Total,Radix}.v, the model in
+   Statements only; the proofs are in Proofs/Format{Proofs,Width,Total,Radix,NoFault,Share}.v, the model in
    Model/Format.v (one Gallina function per Go method; oracles for strconv float digits, quoting
    beyond plain ASCII, Unicode case mapping, int64<->float64 and nested container types). *)
 From Coq Require Import String.
 From Coq Require Import ZArith NArith Bool List.
-From PcoreV Require Import Model.Base Model.Format.
-From PcoreV Require Import Proofs.FormatProofs Proofs.FormatWidth Proofs.FormatTotal Proofs.FormatRadix Proofs.FormatNoFault.
+From PcoreV Require Import Model.Base Model.Format Model.FormatShare.
+From PcoreV Require Import Proofs.FormatProofs Proofs.FormatWidth Proofs.FormatTotal Proofs.FormatRadix Proofs.FormatNoFault Proofs.FormatShare.
 Import ListNotations.
 Open Scope Z_scope.
 
@@ -228,3 +228,44 @@ Example C20_container_ex :
   = Some (OText (lit "(a; ff)"))
   /\ format_value o0 (VHash [(VInt 1, VArr [VInt 2])]) (FStr (lit "%#h")) <> None.
 Proof. vm_compute. split; [reflexivity | discriminate]. Qed.
+
+(* --- one container instance at several positions (aliasing) ---------------------------------- *)
+
+(* The implementation's values are graphs: the same *Array / *Hash instance may occur at several
+   positions (px.EmptyArray, a sub-hash under two keys).  ToString2 carries a map of the instances
+   being rendered (Model/FormatShare.v: `lvalue` = values with instance identities, `render_g` =
+   ToString2 with the guard map as state).  For every value whose instances form no cycle
+   (`lok []`; every value built from finished parts), every oracle and every specification the
+   formatted text is the text of the tree the value unfolds to: an instance met again renders like
+   a value of its own, never as "<recursive reference>".  (False before fix ee5842a: the 'a' case of
+   Hash.ToString2 kept the hash in the guard map.) *)
+Theorem C20_sharing_invisible :
+  forall (o : oracle) (lv : lvalue) (spec : fspec),
+    lok [] lv = true -> format_value_g o lv spec = format_value o (erase lv) spec.
+Proof. exact sharing_invisible. Qed.
+Print Assumptions C20_sharing_invisible.
+
+(* every returning exit of Array.ToString2 / Hash.ToString2 hands the guard map back as it was *)
+Theorem C20_guard_restored :
+  forall n o ind m entries g lv g' s,
+    lok g lv = true -> render_g n o ind m entries g lv = Some (ROk (g', s)) -> g' = g.
+Proof. exact guard_restored. Qed.
+Print Assumptions C20_guard_restored.
+
+(* hence formatting is total on values with aliasing too *)
+Theorem C20_format_total_shared :
+  forall (o : oracle) (lv : lvalue) (spec : fspec),
+    lok [] lv = true -> exists r, format_value_g o lv spec = Some r.
+Proof. exact format_total_shared. Qed.
+Print Assumptions C20_format_total_shared.
+
+(* h = {'a' => 1} twice in an array, Hash under %a; the guard does fire on a cycle (the finite
+   unrolling of an array holding itself), where `lok` is false *)
+Example C20_sharing_ex :
+  let h := LHash (Some 1%N) [(LTree (VStr (lit "a")), LTree (VInt 1))] in
+  let spec := FMap [(KHash, FEStr (lit "%a"))] in
+  lok [] (LArr None [h; h]) = true
+  /\ format_value_g o0 (LArr None [h; h]) spec = Some (OText (lit "[[['a', 1]], [['a', 1]]]"))
+  /\ lok [] (LArr (Some 7%N) [LArr (Some 7%N) []]) = false
+  /\ format_value_g o0 (LArr (Some 7%N) [LArr (Some 7%N) []]) FDefault = Some (OText (lit "[<recursive reference>]")).
+Proof. vm_compute. repeat split. Qed.
